@@ -162,6 +162,51 @@ instance (cfg : Cfg) (a b : Block) : Decidable (BlockStep cfg a b) := by
   unfold BlockStep
   exact inferInstance
 
+/-- a solo producer's history keeps the chain shaped (C04): `SoloStep` ticks are aligned and never on a tip dated 0 -/
+theorem solo_shape (env : Env) (cfg : Cfg) (hmin : 1 ≤ cfg.minFee) (hinj : Function.Injective env.hash)
+    (hI : 0 ≤ cfg.interval) :
+    ∀ (ops : List Op) (n : Node), Reachable env cfg n → (∀ o ∈ ops, o.WF) → Along env cfg (SoloStep cfg) n ops →
+      Shape cfg n.led.blocks → Shape cfg (Ru.run env cfg n ops).led.blocks := by
+  intro ops
+  induction ops with
+  | nil => intro n _ _ _ h; simpa [run] using h
+  | cons o os ih =>
+    intro n hn hw ha hs
+    obtain ⟨ho, hrest⟩ := ha
+    have : Ru.run env cfg n (o :: os) = Ru.run env cfg (Ru.step env cfg n o) os := by simp [run]
+    rw [this]
+    have hal : TickAligned cfg n o := by
+      cases o with
+      | tick ts perm rid =>
+        intro _
+        exact ⟨1, by simpa using ho.2.1⟩
+      | submit _ => trivial
+      | sync _ _ _ => trivial
+      | regsync _ => trivial
+    have htz : TipNonzero n o := by
+      cases o with
+      | tick ts perm rid => intro _; exact ho.2.2.1
+      | submit _ => trivial
+      | sync _ _ _ => trivial
+      | regsync _ => trivial
+    exact ih _ (hn.next o (hw o (by simp))) (fun x hx => hw x (by simp [hx])) hrest
+      (ShapeL.shape_step hmin hinj hI hn hs o (hw o (by simp)) hal htz)
+
+/-- `C08_convergence_solo` with the shape hypothesis moved to the START of the history (injective block hash) -/
+theorem C08_convergence_solo_shaped (env : Env) (cfg : Cfg) (hmin : 1 ≤ cfg.minFee) (hI : 0 < cfg.interval)
+    (hinj : Function.Injective env.hash)
+    (anyhost : Ledger) (n : Node) (hn : Reachable env cfg n) (ops : List Op) (hw : ∀ o ∈ ops, o.WF)
+    (ha : Along env cfg (SoloStep cfg) n ops)
+    (hstart : AcceptedFrom env cfg anyhost [] n.led.blocks n.led.lastTs) (hshape : Shape cfg n.led.blocks)
+    (p : Nat) (targets : List String) (hp : 2 ≤ p) (hne : targets ≠ []) (ht : ∀ t ∈ targets, t ≠ "host") :
+    ∀ (j k : Nat) (l l' : Ledger), 3 ≤ k → k ≤ (Ru.run env cfg n ops).led.blocks.length →
+      l.blocks = (Ru.run env cfg n ops).led.blocks.take k → Derived l →
+      C08.RoundsFrom env cfg (Ru.run env cfg n ops).led.blocks p targets (Ru.run env cfg n ops).led.lastTs j l l' →
+      l'.blocks = (Ru.run env cfg n ops).led.blocks.take
+        (C08.iter (Ru.run env cfg n ops).led.blocks.length p j k) ∧ Derived l' :=
+  C08_convergence_solo env cfg hmin hI anyhost n hn ops hw ha hstart p targets hp hne ht
+    (solo_shape env cfg hmin hinj (Int.le_of_lt hI) ops n hn hw ha hshape)
+
 /-- acceptance from height 0 does not depend on who verifies: what a verifier that checks every block accepts, every
     verifier accepts (C05's "a peer that asks for the whole chain", for every peer at once) -/
 theorem C05_accepted_by_every_verifier (env : Env) (cfg : Cfg) (host : Ledger) (bs : List Block) (t : Int)
